@@ -62,7 +62,8 @@ TrEnd ==
     /\ phase = "done"
     /\ R.div = diverged /\ R.steps = steps
     \* a divergent draw leaves the position unchanged and has a fresh (unit) momentum
-    /\ diverged => (R.ph = chain.startPh /\ R.unit)
+    \* (fresh: a momentum was resampled after the last step of the draw - harness side, from the momentum hook)
+    /\ diverged => (R.ph = chain.startPh /\ R.unit /\ R.fresh)
     /\ chain' = [chain EXCEPT !.endPh = R.ph]
     /\ UNCHANGED kvars
 
